@@ -142,6 +142,12 @@ class C03(MergeFamProp):
         return None
 
     def shrink(self, case):
+        if case.get('kind') == 'api':
+            sts = case['stages']
+            for i in range(1, len(sts)):
+                if len(sts) > 2:
+                    yield dict(case, stages=sts[:i] + sts[i + 1:])
+            return
         if case.get('kind') == 'fn':
             ds, ws = case['docs'], case['writers']
             for i in range(1, len(ds)):
@@ -158,7 +164,57 @@ class C03(MergeFamProp):
             docs = [{'raw': gen_stage(rng, sk, ctr, 0.3, written=written)} for _ in range(rng.randint(2, 6))]
             st = self.STYLES[rng.randrange(len(self.STYLES))]
             out.append({'docs': docs, 'style': list(st)})
-        return out + [self.gen_fn_case(r2) for _ in range(max(4, n // 6))]
+        return out + [self.gen_fn_case(r2) for _ in range(max(4, n // 6))] + [self.gen_api_case(r2) for _ in range(max(3, n // 20))]
+
+    # ---- the node API as the way in: stages built with ConfigDict / ConfigNode, ONE metadata dict object handed to several nodes of a
+    # stage, merged with ayns.merge - the result must be the one obtained with a dict per node, and the caller's dict stays as it was
+    # (seeded change S9-C03: merged metadata written into the existing dict). Oracle only.
+    def gen_api_case(self, rng):
+        keys = rng.sample(['p', 'q', 'r', 's'], rng.choice([2, 3]))
+        stages = []
+        for i in range(rng.choice([2, 2, 3])):
+            ks = [k for k in keys if i == 0 or rng.random() < 0.7] or keys[:1]
+            stages.append({'keys': ks, 'vals': [10 * i + j for j in range(len(ks))], 'prio': rng.choice([0, 0, 1, -1]),
+                           'md': {'src': 'st%d' % i, **({'n%d' % i: i} if rng.random() < 0.6 else {})}, 'cont': rng.random() < 0.4})
+        return {'kind': 'api', 'stages': stages, 'docs': [], 'style': ['flow', 0, 0]}
+
+    def run_api(self, case, shared):
+        from awesomeyaml.nodes.node import ConfigNode
+        from awesomeyaml.nodes.dict import ConfigDict
+        prio = {0: None, 1: ConfigNode.FORCE, -1: ConfigNode.WEAK}
+        handed = []
+        def stage(st):
+            one = dict(st['md'])
+            handed.append((one, dict(st['md'])))
+            mk = (lambda: one) if shared else (lambda: dict(st['md']))
+            kw = lambda: {k: v for k, v in (('priority', prio[st['prio']]), ('metadata', mk())) if v is not None}
+            if st['cont']:
+                return ConfigDict({k: ConfigDict({'v': v}, **kw()) for k, v in zip(st['keys'], st['vals'])})
+            return ConfigDict({k: ConfigNode(v, **kw()) for k, v in zip(st['keys'], st['vals'])})
+        try:
+            r = stage(case['stages'][0])
+            for st in case['stages'][1:]:
+                r = r.ayns.merge(stage(st))
+            out = {'ok': [[str(p), type(n).__name__, sorted((str(a), repr(b)) for a, b in dict(n.ayns.metadata).items()),
+                           repr(n.ayns.native_value) if not hasattr(n, 'keys') else None] for p, n in r.ayns.nodes_with_paths()]}
+        except Exception as e:  # noqa
+            out = {'err': type(e).__name__}
+        out['handed_changed'] = [[a, b] for a, b in handed if a != b]
+        return out
+
+    def impl(self, case):
+        if case.get('kind') == 'api':
+            return {'own': self.run_api(case, False), 'shared': self.run_api(case, True), 'tree': None, 'cfg': {}}
+        return super().impl(case)
+
+    def model_requests(self, case):
+        return [] if case.get('kind') == 'api' else super().model_requests(case)
+
+    def model_obs(self, case, answers):
+        return {'api': True} if case.get('kind') == 'api' else super().model_obs(case, answers)
+
+    def compare(self, case, io, mo):
+        return 'SKIP' if case.get('kind') == 'api' else super().compare(case, io, mo)
 
     def expected(self, case):
         best = {}
@@ -175,6 +231,15 @@ class C03(MergeFamProp):
         return best
 
     def oracle(self, case, io, ans):
+        if case.get('kind') == 'api':
+            a, b = io['own'], io['shared']
+            for name, r in (('a dict per node', a), ('one dict for the nodes of a stage', b)):
+                if r.get('handed_changed'):
+                    return f'node API, {name}: a dict passed as metadata= was modified by the merge: {r["handed_changed"][0]}'
+            if {k: v for k, v in a.items() if k != 'handed_changed'} != {k: v for k, v in b.items() if k != 'handed_changed'}:
+                return ('node API: stages whose nodes were given ONE metadata dict object merge differently from stages with a dict per node: '
+                        + str(first_diff(a.get('ok', a), b.get('ok', b)))[:200])
+            return None
         if case.get('kind') == 'fn':
             return self.oracle_fn(case, io)
         tree = io['tree']
